@@ -93,3 +93,10 @@ impl NetworkCredentials {
         &self.appkey
     }
 }
+
+#[cfg(feature = "verif-hooks")]
+impl Otaa {
+    pub(crate) fn verif_dev_nonce(&self) -> u16 {
+        self.dev_nonce.value()
+    }
+}
